@@ -2,6 +2,7 @@ package props
 
 import (
 	"fmt"
+	"strings"
 	"testing"
 
 	"pgregory.net/rapid"
@@ -87,6 +88,18 @@ func TestC06(t *testing.T) { checkProp(t, "C06", "main", genC06, execC06) }
 func TestC06Race(t *testing.T) {
 	checkProp(t, "C06", "race", genC03Race, func(t *testing.T, c C03Race) Verdict {
 		v := execC03Race(t, c)
+		return v
+	})
+}
+
+// The cancellation scenarios of C07 under the protocol monitor only.
+func TestC06Cancel(t *testing.T) {
+	checkProp(t, "C06", "cancel", genC07, func(t *testing.T, c C07Case) Verdict {
+		v := execC07(t, c)
+		if v.Fail != "" && !strings.Contains(v.Fail, "WIRE") {
+			v.Fail = "" // anything else is C07's business
+		}
+		v.Info.Labels = append(v.Info.Labels, "family=c07")
 		return v
 	})
 }
